@@ -17,6 +17,8 @@
 
 import json
 
+import six
+
 import productmd.common
 from productmd.common import Header, RPM_ARCHES
 from productmd.composeinfo import Compose
@@ -63,6 +65,9 @@ class ExtraFiles(productmd.common.MetadataBase):
 
         if not path:
             raise ValueError("Path can not be empty.")
+
+        if not isinstance(path, six.string_types):
+            raise TypeError("Argument 'path' has to be a string: %r" % (path, ))
 
         if path.startswith("/"):
             raise ValueError("Relative path expected: %s" % path)
